@@ -27,6 +27,10 @@ def gen_cases(rng, tier):
         if other == 'bytes': b = b[:len(b) - len(b) % 8]
         yield {'op': 'pair', 'ca': rng.choice(CLASSES), 'a': a, 'ra': rng.choice(ROUTES), 'pa': rng.choice([None, 0, n // 2, n]),
                'other': other, 'b': b, 'rb': rng.choice(ROUTES), 'pb': rng.choice([None, 0])}
+    # a token string whose bits depend on an option (out-of-range value for the 8-bit float formats): equal to the keyword-built object under the option
+    # value in force at the time of the comparison, before and after the option is changed
+    for _ in range(12 if tier == 'quick' else 150):
+        yield {'op': 'optpair', 'fmt': rng.choice(['e4m3mxfp', 'e5m2mxfp']), 'v': rng.choice([1000.0, 1e6, -1e5, 500.0, 60000.0, -70000.0]), 'first': rng.random() < 0.5, 'cls': rng.choice(CLASSES)}
     # same zero-padded bytes, different lengths: == must compare lengths whatever store either side has (memory-mapped file, slice, copy...)
     for _ in range(60 if tier == 'quick' else 800):
         n = 8 * rng.choice([1, 2, 3, 8, 250, 251])
@@ -49,7 +53,24 @@ def mk_other(c):
     if k in ('str', 'list', 'bitarray', 'bytes') or k in ITERATOR_KINDS: return promotable(c['b'], k)
     return {'int': 5, 'float': 1.5, 'none': None, 'object': object(), 'dict': {1: 2}}[k]
 
+def run_optpair(c):
+    import bitstring
+    C = getattr(bitstring, c['cls'])
+    tok = f"{c['fmt']}={c['v']!r}"
+    out = []
+    try:
+        for mode in (['saturate', 'overflow', 'saturate'] if c['first'] else ['overflow', 'saturate', 'overflow']):
+            bitstring.options.mxfp_overflow = mode
+            x = C(**{c['fmt']: c['v']})
+            r = {'mode': mode, 'eq': x == tok, 'ne': x != tok, 'req': C(tok) == x}
+            if c['cls'] in ('Bits', 'ConstBitStream'): r['hash'] = hash(x) == hash(C(tok)); r['in_set'] = C(tok) in {x}
+            out.append(r)
+    finally:
+        bitstring.options.mxfp_overflow = 'saturate'
+    return ('ok', out)
+
 def run_impl(c):
+    if c['op'] == 'optpair': return run_optpair(c)
     import bitstring
     if c['op'] == 'triple':
         def f():
@@ -63,6 +84,17 @@ def run_impl(c):
         captured.append(t); return real_hash(t)
     def f():
         x = build(c['ca'], c['a'], c['ra'], c['pa'])
+        if c['other'] == 'str' and c['b']:
+            # the same literal has been used before - handed to pack, added to empty objects, given to mutable objects that were then edited in place:
+            # what a string means as an operand of == must not depend on that
+            from bitstring import pack, BitArray, BitStream
+            lit = promotable(c['b'], 'str')
+            def setbits():
+                t = BitArray(); t.bits = lit; return t
+            for mk in (lambda: pack('bits', lit), lambda: lit + BitArray(), lambda: BitStream() + lit, lambda: BitArray(lit), lambda: BitStream(lit), setbits, lambda: BitArray().join([lit])):
+                try:
+                    r = mk(); r.invert(); r.append('0b1'); r.prepend('0b0')
+                except Exception: pass
         y = mk_other(c)
         out = {'eq': x == y, 'ne': x != (mk_other(c) if c['other'] in ITERATOR_KINDS else y)}      # a one-shot iterator serves one comparison
         if c['other'] in CLASSES:
@@ -91,6 +123,11 @@ def run_impl(c):
 
 def oracle(c, obs):
     if obs[0] != 'ok': return f"{c} raised {obs}"
+    if c['op'] == 'optpair':
+        for r in obs[1]:
+            if not (r['eq'] and not r['ne'] and r['req'] and r.get('hash', True) and r.get('in_set', True)):
+                return f"{c['cls']}({c['fmt']}={c['v']}) compared with the token string '{c['fmt']}={c['v']!r}' under mxfp_overflow={r['mode']} (sequence {[x['mode'] for x in obs[1]]}): {r}"
+        return None
     if c['op'] == 'triple':
         s = c['same']
         exp = [True, s, s, True, True, False]
@@ -113,7 +150,7 @@ def oracle(c, obs):
         if not o['in_set'] or o['dict'] != 1: return f"{where}: equal bitstring not found in set/dict"
     return None
 
-def nontrivial(c, obs): return len(c['a']) > 0
+def nontrivial(c, obs): return len(c.get('a', 'x')) > 0
 
 def classify(c, obs): return None
 
